@@ -375,9 +375,9 @@ def describe():
         functions=['xsd/xsdsimpletype.py:XSDSimpleType.__init__', 'XSDSimpleType._check_value', 'XSDSimpleType._check_value_type', 'XSDSimpleType.value (all setters)',
                    'xsd/xsdcomplextype.py:XSDComplexType._check_value', 'xmlelement/xmlelement.py:XMLElement.value_', 'XMLElement.__init__'],
         bounds=dict(ints='unbounded', floats='all of Float64', strings='over SIGMA (%d code points), length <= 10 quick / 14 thorough, whitespace-normalised' % len(rx.SIGMA),
-                    outside='characters outside SIGMA, longer strings, non-normalised whitespace (CrossHair lemma on get_cleaned_token), Unicode spaces in token types'),
+                    outside='characters outside SIGMA, longer strings, non-normalised whitespace in the symbolic part; whitespace that is not XSD whitespace is covered by concrete runs on solver-chosen valid strings only (6 characters x 5 placements)'),
         assumptions=['re.compile(p).fullmatch(symbolic str) is modelled as z3 InRe of the pattern translated from re._parser tree (validated against re on every model)',
-                     'get_cleaned_token is the identity on whitespace-normalised strings without Unicode spaces',
+                     'get_cleaned_token is modelled as the identity on whitespace-normalised symbolic strings (stub; every path model is re-run through the real function, and the non-XSD whitespace sweep runs the real function)',
                      'CPython: str(int) is -?[0-9]+; repr(float) is exponent-free iff v == 0 or 1e-4 <= |v| < 1e16, nan/inf/-inf otherwise (spot-checked on every model)',
                      'xs:date judged by lexical pattern only (upper) / calendar-safe dates (lower); xs:language by union / intersection of the two editions\' patterns',
                      'numbers are offered as numbers: a numeric string offered to a numeric or union type is not demanded to be accepted'],
